@@ -13,17 +13,25 @@ ASSUME = [
     "names are raw InternedString::new(k) keys (no interner); histories: <= 2 successful definitions, then <= 2 definitions of a failed evaluation",
     "the recycler's release of a slot is modelled by what GlobalSlotRecycler does to the table (shadowed_slots.pop -> free_list.push); whether its reachability scan is complete is outside the claim",
 ]
-KF_ROLLBACK = "sym:rollback-unbinds-redefined-name"
+
+
+KF_RESIDUE = "sym:rollback-keeps-definition-in-recycled-slot"
 
 
 def plan(tier):
-    return [
-        {"h": "sym_rollback_restores_earlier_definitions", "sym": "n1,n2,f1,f2 in {1,2,3}; two/ftwo: bool",
-         "classify": {KF_ROLLBACK: r"no longer resolves as before"}, "known": {KF_ROLLBACK: "sym_rollback_restores_earlier_definitions__kf"}},
+    q = [
+        {"h": "sym_rollback_1_1", "sym": "one successful definition; failed evaluation defines f1 in {1,2,3}"},
+        {"h": "sym_rollback_redef_1", "sym": "name 1 defined twice; failed evaluation defines f1 in {1,2,3}"},
         {"h": "sym_recycled_slot_reuse", "sym": "a != b, c in {1,2,3}"},
-        {"h": "sym_rollback_with_recycled_slot", "sym": "a, f in {1,2,3}",
-         "classify": {KF_ROLLBACK: r"do not resolve as before"}},
+        {"h": "sym_rollback_with_recycled_slot", "sym": "f in {1,2,3}",
+         "classify": {KF_RESIDUE: r"reused a released slot"}, "known": {KF_RESIDUE: "sym_rollback_with_recycled_slot__kf"}},
     ]
+    # not covered (measured): failed evaluations with TWO definitions (sym_rollback_1_2 / 2_2): the
+    # solver runs out of memory (26 GB) on the Vec operations of the repaired roll_back
+    t = [
+        {"h": "sym_rollback_2_1", "sym": "two successful definitions; f1"},
+    ]
+    return q + (t if tier == "thorough" else [])
 
 
 def check(pid, tier, seed):
